@@ -152,7 +152,7 @@ def conclude(ctx, result, wall):
             "inconclusive": inconclusive,
             "notes": result.get("notes", [])[:20],
         }
-        for k in ("exhaustive", "scope", "programs", "disagreements_checked", "builds", "sanitizers", "explanation"):
+        for k in ("exhaustive", "scope", "programs", "disagreements_checked", "builds", "sanitizers", "explanation", "max_tick_ratio_x100"):
             if k in result:
                 coverage[k] = result[k]
         if meta["level"] == "translation_validation":
@@ -384,6 +384,7 @@ def run_harness(ctx, profile="dev", prop=None, families=None, extra_args=None):
     merged["programs"] = sum(d.get("programs", 0) for d in docs)
     merged["rules"] = sum(d.get("rules", 0) for d in docs)
     merged["builds"] = [profile]
+    merged["max_tick_ratio_x100"] = max([d.get("max_tick_ratio_x100", 0) for d in docs] or [0])
     merged["engine_args"] = {"prop": prop, "families": fams}
     for c in crashes:
         confirmed = confirm_crash(ctx, c, bin_dir, prop, fams)
@@ -776,9 +777,9 @@ PROPS = {
     "C11": {
         "run": run_c11,
         "engine": "harness+vgen",
-        "technique": "generator called as a library under catch_unwind vs pest_meta's validator verdict on ill-formed / edited grammars; rustc on the corpus expansions; bounded-progress monitor (logical step budget hook, 1000 x reference steps + 10^6) on every parse",
+        "technique": "generator called as a library under catch_unwind vs pest_meta's validator verdict on ill-formed / edited grammars; rustc on the corpus expansions; bounded-progress monitor (logical step budget hook, 100 x reference steps + 50 000) on every parse",
         "design_ref": "6/C11",
-        "level_text": "The real derive_typed_parser is called under catch_unwind on a hand-made ill-formed family (left recursion direct/indirect/through optionals, predicates, silent rules, PUSH; non-failing or non-progressing repetition bodies; unreachable alternatives; non-progressing skip rules), on every corpus grammar and on seeded textual edits of them: it must refuse exactly what pest_meta's validator refuses for those four categories and must not panic on what pest accepts. Termination is restated as bounded progress: every entry point on every case must finish within 1000 x (reference interpreter steps) + 10^6 hook ticks, counted deterministically; a wall-clock watchdog only yields 'inconclusive'. All corpus grammars are compiled by the real derive; a compile error located in a derive expansion is a violation.",
+        "level_text": "The real derive_typed_parser is called under catch_unwind on a hand-made ill-formed family (left recursion direct/indirect/through optionals, predicates, silent rules, PUSH; non-failing or non-progressing repetition bodies; unreachable alternatives; non-progressing skip rules), on every corpus grammar and on seeded textual edits of them: it must refuse exactly what pest_meta's validator refuses for those four categories and must not panic on what pest accepts. Termination is restated as bounded progress: every entry point on every case must finish within 100 x (reference interpreter steps) + 50 000 hook ticks (largest ratio observed on the unchanged tree: see max_tick_ratio_x100 in the evidence, about 1.2), counted deterministically; a wall-clock watchdog only yields 'inconclusive'. All corpus grammars are compiled by the real derive; a compile error located in a derive expansion is a violation.",
         "level_note": "grammars that pest accepts but that are not well-founded on an input (runaway recursion through a predicate, non-progressing repetition) are detected by the model and excluded, as the property's precondition says",
         "level": "exploration",
         "required": {"parses_with_step_budget": 100000, "hook_ticks": 1000000, "refused_by_both": 100, "generated_for_valid": 100,
